@@ -9,7 +9,7 @@ import re
 from vf import cst
 
 WS_CLASSES = ["none", "sp1", "spN", "tab", "nl", "nl_ind", "blank", "blankN", "blank_ws", "trail_nl"]
-LINE_COMMENT_CLASSES = ["eol_line", "own_line", "own_lines2", "own_line_blank_after", "own_line_blank_before", "own_lines2_same"]
+LINE_COMMENT_CLASSES = ["eol_line", "own_line", "own_lines2", "own_line_blank_after", "own_line_blank_before", "own_lines2_same", "own_line_wsblank_after", "own_line_wsblank_before"]
 BLOCK_OWN_CLASSES = ["eol_block", "own_block", "own_doc", "own_mblock", "own_mblock_lead", "own_block2_same"]
 MID_CLASSES = ["mid_block", "mid_doc", "mid_mblock", "mid_block_tight", "mid_block2", "mid_block_then_line"]
 COMMENT_CLASSES = LINE_COMMENT_CLASSES + BLOCK_OWN_CLASSES + MID_CLASSES
@@ -112,6 +112,11 @@ def make_trivia(r: random.Random, cls: str, tag: str, indent: int):
     if cls == "own_block2_same":
         c = _block_comment(r, tag)
         return "\n" + ind + c + "\n" + ind + c + "\n" + ind, 2
+    if cls == "own_line_wsblank_after":
+        # the blank line after the comment carries spaces / a tab
+        return "\n" + ind + _line_comment(r, tag) + "\n" + r.choice(["  ", "\t", " \t ", ind + "  "]) + "\n" + ind, 1
+    if cls == "own_line_wsblank_before":
+        return "\n" + r.choice(["  ", "\t", " \t ", ind + "  "]) + "\n" + ind + _line_comment(r, tag) + "\n" + ind, 1
     if cls == "own_line_blank_after":
         return "\n" + ind + _line_comment(r, tag) + "\n\n" + ind, 1
     if cls == "own_line_blank_before":
